@@ -78,7 +78,10 @@ Section Proofs.
     | None => True
     end.
 
-  (* no generated ids: the candidate an rng would produce is not a function of the contents *)
+  (* no generated ids.  NOT a hypothesis of the C02 theorems any more: a call with WithGenIDIfAbsent
+     and an empty id is, in Lts.v, a call whose rng offers no candidate (Aborted at the first read,
+     as the reference replayed with cands = [] says); candidates are the subject of GenLts.v.  Kept
+     because the C03 lemmas of SubProofs.v are stated with it. *)
   Definition call_ok (c : call) : Prop :=
     match c with
     | CUpdate id0 _ o => String.eqb (apply_id id0) "" && wo_gen_id o = false
@@ -91,8 +94,9 @@ Section Proofs.
     | _, PDone _ => True
     | CSet _ o, PRead _ _ => w_validate (wo_writer o) = None
     | CSet _ _, PSavedV _ _ => True
-    | CUpdate _ _ o, PRead old cr =>
-        w_validate (wo_writer o) = None /\ (cr = true -> wo_create o = true /\ old = Some m_empty)
+    | CUpdate id0 _ o, PRead old cr =>
+        w_validate (wo_writer o) = None /\ (cr = true -> wo_create o = true /\ old = Some m_empty) /\
+        String.eqb (apply_id id0) "" && wo_gen_id o = false
     | CUpdate _ _ _, PSavedC _ _ => True
     | CDelete id0 _, PDel seen _ => seen_ok (apply_id id0) seen w
     | CSubID _ _, POpen => True
@@ -122,6 +126,7 @@ Section Proofs.
       apply ws_value; reflexivity.
     - inversion H; subst; apply ws_same; reflexivity.
     - destruct (w_validate (wo_writer o)); [inversion H; subst; apply ws_same; reflexivity|].
+      destruct (String.eqb (apply_id id0) "" && wo_gen_id o); [inversion H; subst; apply ws_same; reflexivity|].
       destruct (c_get_fn o (apply_id id0) false (c_items (w_c w))) as [[b|code] cr]; inversion H; subst; apply ws_same; reflexivity.
     - destruct (change_fn o msg old); [|inversion H; subst; apply ws_same; reflexivity].
       destruct (c_get_fn o (apply_id id0) cr (c_items (w_c w))) as [[b|code] cr']; [|inversion H; subst; apply ws_same; reflexivity].
@@ -204,9 +209,10 @@ Section Proofs.
       destruct (update_time clock_at o (v_reads (w_v w))) as [t reads]. inversion H; subst. exact I.
     - inversion H; subst; exact I.
     - destruct (w_validate (wo_writer o)) eqn:V; [inversion H; subst; exact I|].
+      destruct (String.eqb (apply_id id0) "" && wo_gen_id o) eqn:G; [inversion H; subst; exact I|].
       unfold Lts.c_get_fn in H.
       destruct (lookup (apply_id id0) (c_items (w_c w))) as [it|].
-      + destruct (wo_expect_absent o); inversion H; subst; simpl; auto. split; [exact V|discriminate].
+      + destruct (wo_expect_absent o); inversion H; subst; simpl; auto. split; [exact V|]. split; [discriminate|exact G].
       + destruct (wo_create o) eqn:Cr; inversion H; subst; simpl; auto.
     - destruct (change_fn o msg old); [|inversion H; subst; exact I].
       destruct (c_get_fn o (apply_id id0) cr (c_items (w_c w))) as [[b|code] cr']; [|inversion H; subst; exact I].
@@ -288,6 +294,7 @@ Section Proofs.
     match w_validate (wo_writer o) with
     | Some code => (s, inr code, [])
     | None =>
+        if String.eqb (apply_id id0) "" && wo_gen_id o then (s, inr 10, []) else
         let id := apply_id id0 in
         match lookup id (c_items s) with
         | Some it =>
@@ -311,12 +318,11 @@ Section Proofs.
     end.
 
   Lemma spec_update_eq s id0 msg o :
-    String.eqb (apply_id id0) "" && wo_gen_id o = false ->
     (let '(c', r, ev, _) := spec_c_update m_eqb m_empty w_validate w_merge clock_at str_ltb idfun s id0 msg o [] in (c', r, ev))
     = upd_ref s id0 msg o.
   Proof.
-    intros G. unfold spec_c_update, upd_ref. destruct (w_validate (wo_writer o)); [reflexivity|].
-    rewrite G. simpl.
+    unfold spec_c_update, upd_ref. destruct (w_validate (wo_writer o)); [reflexivity|].
+    destruct (String.eqb (apply_id id0) "" && wo_gen_id o) eqn:G; [destruct (String.eqb (apply_id id0) ""), (wo_gen_id o); try discriminate; reflexivity|]. simpl.
     destruct (lookup (apply_id id0) (c_items s)) as [it|].
     - destruct (wo_expect_absent o); [reflexivity|]. simpl option_map.
       rewrite change_fn_is_spec. destruct (precondition m_eqb o (Some (it_body it))); [reflexivity|].
@@ -337,12 +343,12 @@ Section Proofs.
     | CSubV _ | CSubC _ | CSubID _ _ => (vc, OSub, [], [])
     end.
 
-  Lemma spec_call_ev_fst vc c : call_ok c ->
+  Lemma spec_call_ev_fst vc c :
     spec_call vc c = (fst (fst (fst (spec_call_ev vc c))), snd (fst (fst (spec_call_ev vc c)))).
   Proof.
-    intros Hok. destruct c as [msg o|id0 msg o|id0 o|ro|ro|id1 ro]; simpl.
+    destruct c as [msg o|id0 msg o|id0 o|ro|ro|id1 ro]; simpl.
     - rewrite spec_set_eq. destruct (set_ref (fst vc) msg o) as [[v' r] ev]. reflexivity.
-    - simpl in Hok. pose proof (spec_update_eq (snd vc) id0 msg o Hok) as E.
+    - pose proof (spec_update_eq (snd vc) id0 msg o) as E.
       destruct (spec_c_update m_eqb m_empty w_validate w_merge clock_at str_ltb idfun (snd vc) id0 msg o []) as [[[c' r] ev] cb].
       rewrite <- E. reflexivity.
     - destruct (spec_c_delete m_eqb clock_at idfun (snd vc) id0 o) as [[[c' r] e] ev]. reflexivity.
@@ -366,7 +372,7 @@ Section Proofs.
 
   (* ---------- the heart: a step either leaves the memory alone or is the call's reference step ---------- *)
   Lemma trans_lin c p w p' w' eff :
-    call_ok c -> pc_wf c p w ->
+    pc_wf c p w ->
     trans c p w = Some (p', w', eff) ->
     match predicted c p, predicted c p' with
     | None, Some r => spec_call_ev (mem w) c = (mem w', r, fst (committed p p' eff), snd (committed p p' eff))
@@ -375,7 +381,7 @@ Section Proofs.
     | Some _, None => False
     end.
   Proof.
-    intros Hok Hwf H. unfold Lts.trans in H.
+    intros Hwf H. unfold Lts.trans in H.
     destruct c as [msg o|id0 msg o|id0 o|ro|ro|id1 ro]; destruct p as [|old cr|nv e|nv e|seen n|r|]; try discriminate; simpl in Hwf.
     - (* Set, start *)
       destruct (w_validate (wo_writer o)) eqn:V; inversion H; subst; clear H; simpl.
@@ -395,20 +401,22 @@ Section Proofs.
     - (* Update, start *)
       destruct (w_validate (wo_writer o)) eqn:V.
       { inversion H; subst; clear H. simpl. unfold upd_ref. rewrite V. reflexivity. }
+      destruct (String.eqb (apply_id id0) "" && wo_gen_id o) eqn:G.
+      { inversion H; subst; clear H. simpl. unfold upd_ref. rewrite V, G. reflexivity. }
       unfold Lts.c_get_fn in H.
       destruct (lookup (apply_id id0) (c_items (w_c w))) as [it|] eqn:L.
       + destruct (wo_expect_absent o) eqn:EA; inversion H; subst; clear H; simpl.
-        * unfold upd_ref. rewrite V, L, EA. reflexivity.
+        * unfold upd_ref. rewrite V, G, L, EA. reflexivity.
         * destruct (change_fn o msg (Some (it_body it))) eqn:C.
           -- split; reflexivity.
-          -- unfold upd_ref. rewrite V, L, EA, C. reflexivity.
+          -- unfold upd_ref. rewrite V, G, L, EA, C. reflexivity.
       + destruct (wo_create o) eqn:Cr; inversion H; subst; clear H; simpl.
         * destruct (change_fn o msg (Some m_empty)) eqn:C.
           -- split; reflexivity.
-          -- unfold upd_ref. rewrite V, L, Cr, C. reflexivity.
-        * unfold upd_ref. rewrite V, L, Cr. reflexivity.
+          -- unfold upd_ref. rewrite V, G, L, Cr, C. reflexivity.
+        * unfold upd_ref. rewrite V, G, L, Cr. reflexivity.
     - (* Update, change + validate + save *)
-      destruct Hwf as [V Hcr]. simpl predicted at 1.
+      destruct Hwf as (V & Hcr & G). simpl predicted at 1.
       destruct (change_fn o msg old) as [nv|code] eqn:C.
       2:{ inversion H; subst; clear H. simpl. repeat split; reflexivity. }
       unfold Lts.c_get_fn in H. destruct cr.
@@ -417,7 +425,7 @@ Section Proofs.
         * inversion H; subst; clear H. simpl. split; reflexivity.
         * destruct (om_eqb m_eqb (Some m_empty) (Some m_empty)).
           -- destruct (update_time clock_at o (c_reads (w_c w))) as [t reads] eqn:U. inversion H; subst; clear H. simpl.
-             unfold upd_ref. rewrite V, L, Cr, C, U. reflexivity.
+             unfold upd_ref. rewrite V, G, L, Cr, C, U. reflexivity.
           -- inversion H; subst; clear H. simpl. split; reflexivity.
       + destruct (lookup (apply_id id0) (c_items (w_c w))) as [it|] eqn:L.
         * destruct (wo_expect_absent o) eqn:EA.
@@ -425,14 +433,14 @@ Section Proofs.
           destruct (om_eqb m_eqb old (Some (it_body it))) eqn:E.
           -- apply om_eqb_eq in E. subst old.
              destruct (update_time clock_at o (c_reads (w_c w))) as [t reads] eqn:U. inversion H; subst; clear H. simpl.
-             unfold upd_ref. rewrite V, L, EA, C, U. reflexivity.
+             unfold upd_ref. rewrite V, G, L, EA, C, U. reflexivity.
           -- inversion H; subst; clear H. simpl. split; reflexivity.
         * destruct (wo_create o) eqn:Cr.
           2:{ inversion H; subst; clear H. simpl. split; reflexivity. }
           destruct (om_eqb m_eqb old (Some m_empty)) eqn:E.
           -- apply om_eqb_eq in E. subst old.
              destruct (update_time clock_at o (c_reads (w_c w))) as [t reads] eqn:U. inversion H; subst; clear H. simpl.
-             unfold upd_ref. rewrite V, L, Cr, C, U. reflexivity.
+             unfold upd_ref. rewrite V, G, L, Cr, C, U. reflexivity.
           -- inversion H; subst; clear H. simpl. split; reflexivity.
     - inversion H; subst; clear H. simpl. repeat split; reflexivity.
     - (* Delete, first read *)
@@ -469,7 +477,6 @@ Section Proofs.
 
   (* ================= all programs, all schedules ================= *)
   Variable prog : list call.
-  Hypothesis prog_ok : forall t c, nth_error prog t = Some c -> call_ok c.
   Variable v0 : vstate.
   Variable c0 : cstate.
   Hypothesis c0_sorted : sorted (c_items c0).
@@ -577,7 +584,7 @@ Section Proofs.
     destruct (trans c p (st_w s)) as [[[p' w'] eff]|] eqn:T; [|subst s'; eapply inv_frame; eauto].
     destruct (gate_open _ _ _ _ _) eqn:G; [|subst s'; eapply inv_frame; eauto].
     destruct (i_local I _ P Q) as [Hwf Hwit].
-    pose proof (@trans_lin _ _ _ _ _ _ (prog_ok _ P) Hwf T) as L.
+    pose proof (@trans_lin _ _ _ _ _ _ Hwf T) as L.
     pose proof (@trans_world _ _ _ _ _ _ T) as W.
     pose proof (@trans_wf _ _ _ _ _ _ T (i_stamps I) (i_sorted I) Hwf) as Hwf'.
     assert (Ht : (t < List.length (st_pcs s))%nat) by (apply nth_error_Some; rewrite Q; discriminate).
@@ -597,7 +604,7 @@ Section Proofs.
       - left. destruct L as (-> & Hm & _). auto.
       - contradiction.
       - right. exists r'. split; [reflexivity|]. split; [|auto].
-        rewrite (@spec_call_ev_fst (mem (st_w s)) c (prog_ok _ P)), L. reflexivity.
+        rewrite (@spec_call_ev_fst (mem (st_w s)) c), L. reflexivity.
       - left. destruct L as (Hm & _). auto. }
     clear E L.
     constructor.
@@ -738,6 +745,7 @@ Section Proofs.
     option_map (@it_body M) (lookup (apply_id id0) (c_items c')) = Some nv.
   Proof.
     unfold upd_ref. destruct (w_validate (wo_writer o)); [discriminate|].
+    destruct (String.eqb (apply_id id0) "" && wo_gen_id o); [discriminate|].
     destruct (lookup (apply_id id0) (c_items s)) as [it|].
     - destruct (wo_expect_absent o); [discriminate|].
       destruct (change_fn o msg (Some (it_body it))) as [nv'|]; [|discriminate].
@@ -766,7 +774,7 @@ Section Proofs.
     rewrite P in P2. inversion P2. subst c.
     exists k. split; [exact R|].
     remember (mem_at sched k) as mk. remember (mem_at sched (S k)) as mk'.
-    rewrite (@spec_call_ev_fst _ _ (prog_ok _ P)) in HS. simpl in HS.
+    rewrite spec_call_ev_fst in HS. simpl in HS.
     destruct (set_ref (fst mk) msg o) as [[v' r] ev] eqn:SR. simpl in HS.
     assert (E1 : (v', snd mk) = mk' /\ r = inl nv) by (inversion HS; auto). destruct E1 as [E1 ->].
     apply set_ref_ok in SR. destruct SR as [C V]. split; [exact (change_fn_expected _ _ _ C He)|].
@@ -789,7 +797,7 @@ Section Proofs.
     rewrite P in P2. inversion P2. subst c.
     exists k. split; [exact R|].
     remember (mem_at sched k) as mk. remember (mem_at sched (S k)) as mk'.
-    rewrite (@spec_call_ev_fst _ _ (prog_ok _ P)) in HS. simpl in HS.
+    rewrite spec_call_ev_fst in HS. simpl in HS.
     destruct (upd_ref (snd mk) id0 msg o) as [[c' r] ev] eqn:SR. simpl in HS.
     assert (E1 : (fst mk, c') = mk' /\ r = inl nv) by (inversion HS; auto). destruct E1 as [E1 ->].
     apply upd_ref_ok in SR. destruct SR as [C V]. split; [|rewrite <- E1; exact V].
@@ -898,6 +906,7 @@ Section Proofs.
       { intros it reads. simpl. destruct (String.eqb_spec id (apply_id id0)) as [->|Hne].
         - rewrite (lookup_insert_same str_ltb). discriminate.
         - rewrite (lookup_insert_other str_ltb) by exact Hne. exact Hp. }
+      destruct (String.eqb (apply_id id0) "" && wo_gen_id o); [exact Hp|].
       destruct (lookup (apply_id id0) (c_items (snd vc))) as [it|].
       + destruct (wo_expect_absent o); [exact Hp|].
         destruct (change_fn o msg (Some (it_body it))); [|exact Hp].
@@ -924,7 +933,7 @@ Section Proofs.
     destruct (trans c p (st_w s)) as [[[p' w'] eff]|] eqn:T; [|exact Hp].
     destruct (gate_open _ _ _ _ _) eqn:G; [|exact Hp].
     simpl. destruct (i_local I _ P Q) as [Hwf _].
-    pose proof (@trans_lin _ _ _ _ _ _ (prog_ok _ P) Hwf T) as L.
+    pose proof (@trans_lin _ _ _ _ _ _ Hwf T) as L.
     destruct (predicted c p), (predicted c p').
     - destruct L as (_ & -> & _). exact Hp.
     - contradiction.
@@ -942,15 +951,16 @@ Section Proofs.
   Qed.
 
   Lemma add_success_absent vc id0 msg o vc' nv :
-    wo_expect_absent o = true -> call_ok (CUpdate id0 msg o) ->
+    wo_expect_absent o = true ->
     spec_call vc (CUpdate id0 msg o) = (vc', OVal (inl nv)) ->
     lookup (apply_id id0) (c_items (snd vc)) = None /\ present (apply_id id0) vc'.
   Proof.
-    intros EA Hok H. rewrite (@spec_call_ev_fst _ _ Hok) in H. simpl in H.
+    intros EA H. rewrite spec_call_ev_fst in H. simpl in H.
     destruct (upd_ref (snd vc) id0 msg o) as [[c' r] ev] eqn:U. simpl in H.
     assert (E : (fst vc, c') = vc' /\ r = inl nv) by (inversion H; auto). destruct E as [<- ->].
     pose proof (upd_ref_ok _ _ _ _ U) as [_ V]. split.
     - unfold upd_ref in U. destruct (w_validate (wo_writer o)); [discriminate|].
+      destruct (String.eqb (apply_id id0) "" && wo_gen_id o); [discriminate|].
       destruct (lookup (apply_id id0) (c_items (snd vc))); [|reflexivity]. rewrite EA in U. discriminate.
     - unfold present. simpl. destruct (lookup (apply_id id0) (c_items c')); [discriminate|discriminate].
   Qed.
@@ -989,7 +999,7 @@ Section Proofs.
     destruct (trans c p (st_w s)) as [[[p' w'] eff]|] eqn:T; [|contradiction].
     destruct (gate_open _ _ _ _ _) eqn:G; [|contradiction].
     simpl in *. destruct (i_local I _ P Q) as [Hwf _].
-    pose proof (@trans_lin _ _ _ _ _ _ (prog_ok _ P) Hwf T) as L.
+    pose proof (@trans_lin _ _ _ _ _ _ Hwf T) as L.
     destruct (predicted c p) as [r0|], (predicted c p') as [r|].
     - destruct L as (_ & E & _). rewrite E in Hn. contradiction.
     - contradiction.
@@ -1050,10 +1060,10 @@ Section Proofs.
     unfold Lts.wit_tid, Lts.wit_k, Lts.wit_out in P1', R1, S1, P2', R2, S2.
     simpl fst in P1', R1, S1, P2', R2, S2. simpl snd in P1', R1, S1, P2', R2, S2.
     rewrite P1 in P1'. inversion P1'. subst c1. rewrite P2 in P2'. inversion P2'. subst c2.
-    destruct (@add_success_absent _ _ _ _ _ _ E2 (prog_ok _ P2) S2) as [A2 _].
+    destruct (@add_success_absent _ _ _ _ _ _ E2 S2) as [A2 _].
     assert (B1 : present (apply_id id1) (mem_at sched (S k1))).
     { remember (mem_at sched k1) as mk. remember (mem_at sched (S k1)) as mk'.
-      rewrite (@spec_call_ev_fst _ _ (prog_ok _ P1)) in S1. simpl in S1.
+      rewrite spec_call_ev_fst in S1. simpl in S1.
       destruct (upd_ref (snd mk) id1 msg1 o1) as [[c' r] ev] eqn:U. simpl in S1.
       assert (E : (fst mk, c') = mk' /\ r = inl nv1) by (inversion S1; auto).
       destruct E as [E ->]. pose proof (upd_ref_ok _ _ _ _ U) as [_ V]. unfold present. rewrite <- E. simpl.
@@ -1080,8 +1090,8 @@ Section Proofs.
     unfold Lts.wit_tid, Lts.wit_k, Lts.wit_out in P1', R1, S1, P2', R2, S2.
     simpl fst in P1', R1, S1, P2', R2, S2. simpl snd in P1', R1, S1, P2', R2, S2.
     rewrite P1 in P1'. inversion P1'. subst c1. rewrite P2 in P2'. inversion P2'. subst c2.
-    destruct (@add_success_absent _ _ _ _ _ _ E1 (prog_ok _ P1) S1) as [A1 B1].
-    destruct (@add_success_absent _ _ _ _ _ _ E2 (prog_ok _ P2) S2) as [A2 B2].
+    destruct (@add_success_absent _ _ _ _ _ _ E1 S1) as [A1 B1].
+    destruct (@add_success_absent _ _ _ _ _ _ E2 S2) as [A2 B2].
     assert (k1 <> k2) by (intros ->; rewrite R1 in R2; inversion R2; contradiction).
     destruct (Nat.lt_ge_cases k1 k2) as [Hlt|Hge].
     - apply (@present_mono sched (apply_id id1) (S k1) k2) in B1; [|lia].
